@@ -452,6 +452,28 @@ def random_recipes(ctx):
     return out
 
 
+def far_recipes(ctx):
+    """Clouds far from the origin (coordinates ~ 3000 +- 20, exact in float32) with more than 25 points: distances must
+    come from coordinate differences, not from a |a|^2 + |b|^2 - 2ab expansion (which loses everything in float32)."""
+    rng, out = ctx.rng, []
+    for dtype in ("float32", "float64"):
+        for rep in range(2 if ctx.quick else 8):
+            D = rng.randint(1, 4)
+            N = rng.choice((26, 30, 48))
+            off = [rng.choice((3000, -3000, 12000)) for _ in range(D)]
+            P = [[off[c] + rng.randint(-20, 20) for c in range(D)] for _ in range(N)]
+            R = [[off[c] + rng.randint(-20, 20) for c in range(D)] for _ in range(rng.choice((3, 27)))]
+            perm = rand_perm(rng, N)
+            for o in (2, 1, 0):
+                out.append({"fn": "knn", "R": R, "Q": P, "k": rng.randint(1, 4), "ord": o, "largest": False,
+                            "sorted": True, "dtype": dtype, "perm_r": rand_perm(rng, len(R)), "perm_q": perm})
+            out.append({"fn": "knn_filter", "P": P, "pd": D, "ord": 2, "dtype": dtype, "perm": perm, "cls": "far",
+                        "pdim_default": True, "k": 2, "rh": None})
+            out.append({"fn": "nbr_filter", "P": P, "pd": D, "ord": 2, "dtype": dtype, "perm": perm, "cls": "far",
+                        "pdim_default": True, "n": 2, "rh": 16, "return_mask": True})
+    return out
+
+
 def edge_recipes(ctx):
     rng, out = ctx.rng, []
     for dtype in ("float64", "float32"):
@@ -823,7 +845,7 @@ def run(ctx):
         futs.append((j["cfg"], pool.submit(ctx.tlc, j.pop("module"), j.pop("cfg"), **j)))
         time.sleep(0.3)          # ctx.tlc numbers its scratch directories when it starts
     # ---- code -> spec
-    recipes = outlier_recipes(ctx) + edge_recipes(ctx) + random_recipes(ctx) + batched_recipes(ctx) + camera_recipes(ctx)
+    recipes = outlier_recipes(ctx) + edge_recipes(ctx) + far_recipes(ctx) + random_recipes(ctx) + batched_recipes(ctx) + camera_recipes(ctx)
     pc, cam = validate_all(ctx, recipes)
     for tr in (pc[len(pc) // 2], cam[0]):
         e = dict(tr["ev"][-1])
